@@ -98,3 +98,68 @@ for h in ("clear", "insert", "remove", "iterate", "walk"):
       bound_note="every list of <= K nodes (keys in 0..3, duplicates allowed, with and without comparator), K=4 quick / 6 thorough; loops unwound K+6",
       defines_quick=["V_K=4"], defines_thorough=["V_K=6"], unwind=10, unwind_thorough=12, native=True,
       contract_files=["contracts/list.contracts.h"], timeout=600, timeout_thorough=3000, min_obligations=10)
+
+# =====================================================================================================
+# C11  ordered set (BST)
+# =====================================================================================================
+PROPS["C11"] = {
+    "level": "other",
+    "level_text": "Contract-based, two tiers reported separately. Unbounded: the default comparator is proved to order EVERY pair of 64-bit addresses "
+                  "consistently (sign of the address comparison, no truncation); insert_node and the <=1-child splice of remove_node are proved against exact "
+                  "window contracts for trees of any size (links, parent pointers, length, destructor once on the removed element, frame). Bounded stand-in: "
+                  "everything that walks the tree (descent, successor search, 2-children removal, insert/find/remove, the three traversals, iterator with "
+                  "removal, clear/free) is checked on EVERY binary-search-tree shape of <= K nodes (K=4 quick, 5 thorough), every query-key position, user and "
+                  "default comparator, with/without destructor, against a set model (bitmask) and a reference traversal. Because the deciding clauses for "
+                  "tree walks rest on the bounded tier, the level is 'other', not 'proof'.",
+    "level_note": "Trusted: CBMC, allocator stub, recording destructor/comparator/callback stubs. Pointer-chasing loops cannot be closed with CBMC loop contracts "
+                  "(no is_fresh in invariants), hence the bounded tier; unwinding assertions are on, so each bounded run is complete for its shape. Key sets are "
+                  "represented by rank (comparator-only structure).",
+    "design_ref": "DESIGN.md 4 (C11), 2.5 idiom A/B/D",
+    "not_decided": ["tree-walking functions on trees with more than K nodes (bounded stand-in only)",
+                    "user comparators that are not a total order consistent with equality (outside the documented precondition)"],
+    "explanation": "contract-based deductive verification; unbounded for ptrcmp/insert_node/remove_node(<=1 child)/new/len, bounded (all shapes <= K nodes, "
+                   "one complete CBMC run per shape) for every function that walks the tree; see coverage.obligations vs coverage.bounded_obligations",
+}
+for h, fn in (("ptrcmp", "ptrcmp"), ("new", "m_bst_new"), ("len", "m_bst_len"), ("insert_node", "insert_node"), ("remove_node", "remove_node")):
+    U("b." + h, src="units/bst.c", harness="h_b_" + h, enforce=fn, logctx="STRUCTS", props=["C11", "C04"],
+      contract_files=["contracts/bst.contracts.h"], native=True, timeout=300, min_obligations=5,
+      # remove_node is recursive: the recursive call (2-children branch, excluded by the window precondition) is checked
+      # against the contract itself; the successor-search loop in that branch is unreachable, its unwinding assertion proves it
+      enforce_rec=(h == "remove_node"), unwindset=({"find_min_subtree.0": 1} if h == "remove_node" else {}))
+
+
+BST_K_QUICK, BST_K_THOROUGH = 4, 5
+
+
+def bst_shapes(n):
+    """pre-order rank sequences of all binary-search-tree shapes with n nodes (= 231-avoiding permutations of 0..n-1)"""
+    def rec(lo, hi):
+        if lo >= hi:
+            return [[]]
+        out = []
+        for root in range(lo, hi):
+            for L in rec(lo, root):
+                for R in rec(root + 1, hi):
+                    out.append([root] + L + R)
+        return out
+    return rec(0, n)
+
+
+def _bst_bounded(kmax, thorough_only):
+    for n in range(0, kmax + 1):
+        for sh in bst_shapes(n):
+            packed = sum(r << (4 * i) for i, r in enumerate(sh))
+            sid = "n%d_%s" % (n, "".join(str(r) for r in sh) or "e")
+            for h in ("insert", "find", "remove", "traverse", "walk", "clear"):
+                scripts = range(1 << n) if h == "walk" else [None]
+                for sc in scripts:
+                    U("bb.%s#%s%s" % (h, sid, "" if sc is None else "_r%x" % sc), src="units/bst.c", harness="h_bb_" + h, plain=True, logctx="STRUCTS",
+                      props=["C11", "C04"], bounded=True,
+                      bound_note="one run per tree shape (and, for the iterator walk, per removal script): every binary search tree of <= K nodes "
+                                 "(K=%d quick / %d thorough), every query key position, user and default comparator, with/without destructor; "
+                                 "loops and recursion unwound max(n+4,7) with unwinding assertions" % (BST_K_QUICK, BST_K_THOROUGH),
+                      defines=["V_N=%d" % n, "V_SHAPE=0x%xull" % packed] + ([] if sc is None else ["V_SCRIPT=%d" % sc]), unwind=max(n + 4, 7), native=True,
+                      thorough_only=thorough_only(n), contract_files=["contracts/bst.contracts.h"], timeout=600, min_obligations=10)
+
+
+_bst_bounded(BST_K_THOROUGH, lambda n: n > BST_K_QUICK)
